@@ -307,6 +307,68 @@ Fixpoint spec_current_from (h : hval) (c : option nat) (ls : list label) : list 
   end.
 Definition spec_current (ls : list label) : list (option event) := spec_current_from None None ls.
 
+(* ---------- every connection, also a replaced one that is still open ---------- *)
+(* With a bare RetryClient the application may call SetClient while the previous connection is still
+   open (make-before-break). What the history says about each client object: the handler last PUT on
+   it — by the Dialer, by Connect's install section (the registered handler of that moment), or by a
+   Handle call made while it was the current client. A replaced client is never touched again, so it
+   keeps the handler it had when it was replaced: its late messages still reach that handler, they
+   are not dropped. [hist] is that account; no connection phases, no enabledness. *)
+Record hist := {
+  h_reg : hval;             (* handler of the latest Handle call *)
+  h_cur : option nat;       (* client of the latest SetClient *)
+  h_inst : list hval        (* per client (dial order): the handler last put on it *)
+}.
+
+Fixpoint set_nth (k : nat) (h : hval) (l : list hval) : list hval :=
+  match l, k with
+  | [], _ => []
+  | _ :: r, O => h :: r
+  | x :: r, S k' => x :: set_nth k' h r
+  end.
+
+Definition installed (t : hist) (k : nat) : hval :=
+  match nth_error (h_inst t) k with Some x => x | None => None end.
+
+Definition hist_handle (t : hist) (h : hval) : hist :=
+  {| h_reg := h; h_cur := h_cur t;
+     h_inst := match h_cur t with Some k => set_nth k h (h_inst t) | None => h_inst t end |}.
+
+(* the handler a message on connection k is entitled to: the registered one if k is the current
+   connection, otherwise the one k was left with *)
+Definition entitled (t : hist) (k : nat) : hval :=
+  match h_cur t with
+  | Some k' => if Nat.eqb k k' then h_reg t else installed t k
+  | None => installed t k
+  end.
+
+Definition hist_step (t : hist) (l : label) : hist * list event :=
+  match l with
+  | U_handle h => (hist_handle t h, [])
+  | R_dial h0 => ({| h_reg := h_reg t; h_cur := h_cur t; h_inst := h_inst t ++ [h0] |}, [])
+  | R_set_client k => ({| h_reg := h_reg t; h_cur := Some k; h_inst := h_inst t |}, [])
+  | R_connect_begin =>
+      (match h_cur t with
+       | Some k => {| h_reg := h_reg t; h_cur := h_cur t; h_inst := set_nth k (h_reg t) (h_inst t) |}
+       | None => t
+       end, [])
+  | B_inbound k m => (t, [Deliver k m (entitled t k)])
+  | B_inbound_handle k m h => (hist_handle t h, [Deliver k m (entitled t k)])
+  | _ => (t, [])
+  end.
+
+Fixpoint hist_from (t : hist) (evs : list event) (ls : list label) : hist * list event :=
+  match ls with
+  | [] => (t, evs)
+  | l :: r => let '(t', e) := hist_step t l in hist_from t' (evs ++ e) r
+  end.
+
+Definition hist_init : hist := {| h_reg := None; h_cur := None; h_inst := [] |}.
+Definition hist_of (ls : list label) : hist := fst (hist_from hist_init [] ls).
+(* the delivery log the history entitles the user to, for EVERY message on EVERY connection *)
+Definition spec_every (ls : list label) : list event := snd (hist_from hist_init [] ls).
+Definition installed_of (ls : list label) (k : nat) : hval := installed (hist_of ls) k.
+
 (* ---------- decidable equality of observables ---------- *)
 Definition hval_eqb (a b : hval) : bool := option_eqb N.eqb a b.
 
